@@ -36,20 +36,6 @@ open Csvq.SizeFacts
 
 /-! ## loops -/
 
-/-- a loop named without its line: file, function, header, number of occurrences, reason.  Reason classes:
-    I an iterator / scanner / reader whose progress is made by a callee (no integer measure in this function);
-    U the user's own loop;  R termination with probability 1;  D a measure that depends on a direction chosen before the loop;
-    C / E a fact the walk does not keep (an assignment inside a switch with fallthrough; an element read twice). -/
-structure LoopRef where
-  file : String
-  fn : String
-  header : String
-  count : Nat
-  reason : String
-deriving Repr
-
-def LoopRef.is (r : LoopRef) (l : LoopSite) : Bool := r.header == l.header && r.fn == l.fn && r.file == l.file
-
 def exemptLoopSites : List LoopRef := [
   ⟨"lib/query/analytic_function.go", "setNthValue", "for ; frame.Low <= i && i <= frame.High; i += step", 1, "D the direction is chosen before the loop (i, step = frame.High, -1 when counting from the last row): the measure is frame.High - i for step = 1 and i - frame.Low for step = -1, a case split on a variable the join keeps only per variable; both bounds are fields of the frame and not assigned in the body"⟩,
   ⟨"lib/query/encode.go", "encodeText", "for", 1, "C pos is incremented once more inside the `\\\\r\\\\n` case before the fallthrough (a switch with fallthrough forgets what its clauses assign): pos only grows, by one or two per iteration, towards len(runes)"⟩,
@@ -93,23 +79,6 @@ set_option maxRecDepth 100000 in
 theorem exempt_loop_sites_exist :
     exemptLoopSites.all (fun r => unprovedLoopSites.any (r.is ·)) = true := by
   decide +kernel
-
-/-- what the recorded proofs give: `proved` is `terminates` -/
-theorem LoopSite.proved_sound (entries : List SizeEntry) (l : LoopSite) (h : l.proved entries = true) :
-    l.terminates entries := by
-  simp only [LoopSite.proved, Bool.or_eq_true, beq_iff_eq, List.any_eq_true, List.all_eq_true] at h
-  cases h with
-  | inl h0 => exact Or.inl h0
-  | inr hc =>
-    obtain ⟨c, hc, hall⟩ := hc
-    refine Or.inr ⟨c, hc, ?_⟩
-    intro i hi
-    have := hall i hi
-    split at this
-    · rename_i e he
-      match e, this with
-      | ⟨s, .yes hp⟩, _ => exact ⟨⟨s, .yes hp⟩, he, hp⟩
-    · cases this
 
 /-- **loop_sites_terminate.**  For every `for` loop that is not reviewed: it has no back edge, or one of the measures read off its
     exit conditions is, for ALL integer valuations of one iteration (facts of the path to each back edge), non-negative at the
